@@ -181,8 +181,12 @@ func cmdCheck(args []string) int {
 		pf := todo[qi]
 		fi := prog.Funcs[pf.F]
 		ct := prog.Contracts[pf.F]
-		if ct == nil && fi != nil {
-			ct = contractFor(prog, fi)
+		if fi != nil && (ct == nil || !ct.Pure) {
+			// own contract, or - for an implementation with an annotation-only block or none - the interface contract merged
+			// with the annotations (the same choice `rvc verify` makes)
+			if c2 := contractFor(prog, fi); c2 != nil {
+				ct = c2
+			}
 		}
 		if ct == nil || (fi == nil && !ct.Pure) {
 			orphans = append(orphans, pf.F)
